@@ -2,11 +2,11 @@
 (* Exhaustive configuration and behaviour export for Solver.tla (C09).      *)
 EXTENDS Solver, Json, FiniteSets
 
-CONSTANTS MaxIters, CsVals, Kinds
+CONSTANTS MaxIters, CsVals, Kinds, StallLimits
 
 Tols == {[atol |-> Q(1, 1), rtol |-> Q(1, 8)], [atol |-> Q(2, 1), rtol |-> Q(1, 8)], [atol |-> Q(1, 4), rtol |-> Q(1, 2)]}
-Stalls == {[limit |-> 0, tol |-> Zero, type |-> "rel"]} \cup
-          {[limit |-> l, tol |-> t, type |-> ty] : l \in {1, 2}, t \in {Zero, Q(1, 4)}, ty \in {"abs", "rel"}}
+Stalls == (IF 0 \in StallLimits THEN {[limit |-> 0, tol |-> Zero, type |-> "rel"]} ELSE {}) \cup
+          {[limit |-> l, tol |-> t, type |-> ty] : l \in StallLimits \ {0}, t \in {Zero, Q(1, 4)}, ty \in {"abs", "rel"}}
 
 AllConfigs ==
     {[kind |-> k, maxiter |-> m, atol |-> t.atol, rtol |-> t.rtol, stall_limit |-> s.limit, stall_tol |-> s.tol,
